@@ -521,30 +521,36 @@ def traitParamsNodup (view : View) : Bool :=
 
 /-! ## C04 — dependency bounds bubble up exactly -/
 
+/-- the bounds a where-predicate declares on the type parameter `dep` -/
+def depPredBounds (dep : String) : WherePred → List Toks
+  | .ty _ (.path false false 1 f _) bs _ => if f == dep then bs else []
+  | _ => []
+
+/-- bounds declared on the dependency, for a dependency type that is neither a reference nor
+    parenthesised -/
+def Ty.specDepBounds (g : Generics) : Ty → List Toks
+  | .implTrait bs _ => bs
+  | .path false false 1 first _ =>
+      match g.params.find? (fun q => q.isType && q.name == first) with
+      | some (.ty _ _ inline _ _) => inline ++ g.preds.flatMap (depPredBounds first)
+      | _ => []
+  | _ => []
+
+/-- the dependency type names neither `impl Trait` nor a type parameter of the function -/
+def Ty.specConcrete (g : Generics) : Ty → Bool
+  | .implTrait _ _ => false
+  | .path false false 1 first _ => !(g.params.any (fun q => q.isType && q.name == first))
+  | _ => true
+
 /-- every bound declared on the dependency parameter of one function -/
 def Sig.declaredDepBounds (s : Sig) : List Toks :=
   match s.inputs with
-  | .typed _ _ ty :: _ =>
-      match ty.stripRefs with
-      | .implTrait bs _ => bs
-      | .path false false 1 first _ =>
-          match s.generics.params.find? (fun q => q.isType && q.name == first) with
-          | some (.ty _ _ inline _ _) =>
-              inline ++ s.generics.preds.flatMap (fun pred =>
-                match pred with
-                | .ty _ (.path false false 1 f _) bs _ => if f == first then bs else []
-                | _ => [])
-          | _ => []
-      | _ => []
+  | .typed _ _ ty :: _ => ty.stripRefs.specDepBounds s.generics
   | _ => []
 
 def Sig.depIsConcrete (s : Sig) : Bool :=
   match s.inputs with
-  | .typed _ _ ty :: _ =>
-      match ty.stripRefs with
-      | .implTrait _ _ => false
-      | .path false false 1 first _ => !(s.generics.params.any (fun q => q.isType && q.name == first))
-      | _ => true
+  | .typed _ _ ty :: _ => ty.stripRefs.specConcrete s.generics
   | _ => false
 
 def Sig.depByValue (s : Sig) : Bool :=
@@ -560,31 +566,41 @@ def isSelfPred : WherePred → Bool
   | .ty _ (.path false false 1 "Self" _) _ _ => true
   | _ => false
 
+/-- the impl's where clause is: (iff some bound is declared on the dependency) one predicate on
+    `target` carrying exactly the declared bounds, followed only by predicates the user wrote -/
+def wherePredsOk (target : Ty) (declared : List Toks) (userPreds : List WherePred) (preds : List WherePred) : Bool :=
+  if declared.isEmpty then preds.all (fun q => userPreds.contains q)
+  else
+    match preds with
+    | .ty [] bt bs false :: rest => bt == target && sameMultiset bs declared && rest.all (fun q => userPreds.contains q)
+    | _ => false
+
+/-- the macro's own type parameter: `EntraitT: Sync [+ Send] + 'static` -/
+def implTParamOk (byValue : Bool) (ps : List GParam) : Bool :=
+  match ps.head? with
+  | some (.ty [] "EntraitT" bs false none) =>
+      sameMultiset bs ([syncToks] ++ (if byValue then [sendToks] else []) ++ [staticToks])
+  | _ => false
+
+/-- the header of the delegating impl of an fn / mod input, given the source signatures -/
+def fnImplHeaderOk (o : Opts) (srcs : List Sig) (im : GenImpl) : Bool :=
+  let userPreds := srcs.flatMap (·.generics.preds)
+  if o.noDepsValue then
+    -- no dependency: nothing but the fixed requirement
+    implTParamOk false im.params &&
+    im.selfTy == (if o.mockable then implPathToks else [i entraitT]) &&
+    wherePredsOk selfTy_ [] userPreds im.preds
+  else if srcs.any Sig.depIsConcrete then true   -- concrete dependencies: C05
+  else
+    implTParamOk (srcs.any Sig.depByValue) im.params &&
+    im.selfTy == (if o.mockable then implPathToks else [i entraitT]) &&
+    wherePredsOk selfTy_ (srcs.flatMap Sig.declaredDepBounds) userPreds im.preds
+
 def P_C04 (v : Variant) (attr : Toks) (item : Item) (view : View) : Bool :=
   match item with
   | .fn _ | .mod_ _ =>
       match effectiveOpts v attr item, mainImpl? view with
-      | some o, some im =>
-          let srcs := item.sourceFns.map (·.sig)
-          if o.noDepsValue then
-            -- no dependency: nothing but the fixed requirement
-            im.params.head? == some (implTParam false) &&
-            im.selfTy == (if o.mockable then implPathToks else [i entraitT]) && !im.preds.any isSelfPred
-          else if srcs.any Sig.depIsConcrete then true   -- concrete dependencies: C05
-          else
-            let declared := srcs.flatMap Sig.declaredDepBounds
-            let byValue := srcs.any Sig.depByValue
-            (match im.params.head? with
-             | some (.ty [] "EntraitT" bs false none) =>
-                 sameMultiset bs ([syncToks] ++ (if byValue then [sendToks] else []) ++ [staticToks])
-             | _ => false) &&
-            im.selfTy == (if o.mockable then implPathToks else [i entraitT]) &&
-            (match im.preds.filter isSelfPred with
-             | [] => declared.isEmpty
-             | [.ty [] _ bs false] => !declared.isEmpty && sameMultiset bs declared
-             | _ => false) &&
-            -- every other requirement is a where-predicate the user wrote
-            (im.preds.filter (fun q => !isSelfPred q)).all (fun q => srcs.any (fun s => s.generics.preds.contains q))
+      | some o, some im => fnImplHeaderOk o (item.sourceFns.map (·.sig)) im
       | _, _ => false
   | _ => true
 
@@ -600,7 +616,7 @@ def P_C05 (v : Variant) (attr : Toks) (item : Item) (view : View) : Bool :=
             t.attrs.count entraitForTraitAttr == 1 &&
             im.selfTy == ty.stripRefs.print &&
             !im.params.any (fun q => q.name == entraitT) &&
-            !im.preds.any isSelfPred
+            wherePredsOk selfTy_ [] f.sig.generics.preds im.preds
         | _, _, _ => false
   | _ => true
 
@@ -739,15 +755,9 @@ def P_C07 (v : Variant) (attr : Toks) (item : Item) (view : View) : Bool :=
           zipAll (fun src g => methodCallsFn false true src g) srcs im.members &&
           im.selfTy == m.selfTy &&
           (m.traitPath ++ [p '<', i entraitT]).isPrefixOf im.traitRef &&
-          (match im.params.head? with
-           | some (.ty [] "EntraitT" bs false none) =>
-               sameMultiset bs ([syncToks] ++ (if a.dynRef && srcs.any (·.sig.depByValue) then [sendToks] else []) ++ [staticToks])
-           | _ => false) &&
-          (let declared := srcs.flatMap (·.sig.declaredDepBounds)
-           match im.preds.filter (fun q => match q with | .ty _ bt _ _ => bt == implPathTy | _ => false) with
-           | [] => declared.isEmpty
-           | [.ty [] _ bs false] => !declared.isEmpty && sameMultiset bs declared
-           | _ => false) &&
+          implTParamOk (a.dynRef && srcs.any (·.sig.depByValue)) im.params &&
+          wherePredsOk implPathTy (srcs.flatMap (·.sig.declaredDepBounds))
+            (srcs.flatMap (·.sig.generics.preds)) im.preds &&
           (v == v)
       | _, _ => false
   | _ => true
